@@ -61,11 +61,13 @@ def snapshot(root):
     for d, subs, fs in os.walk(root):
         rel = os.path.relpath(d, root)
         snap[rel + "/"] = "dir"
+        snap[rel + "/#mode"] = "%o" % (os.stat(d).st_mode & 0o7777)
         for f in fs:
             p = os.path.join(d, f)
             try:
                 with open(p, "rb") as fh:
                     snap[os.path.relpath(p, root)] = hashlib.sha256(fh.read()).hexdigest()
+                snap[os.path.relpath(p, root) + "#mode"] = "%o" % (os.stat(p).st_mode & 0o7777)
             except OSError as e:
                 snap[os.path.relpath(p, root)] = "unreadable:%s" % e.errno
     return snap
@@ -102,6 +104,7 @@ def scenarios():
             S.append(Scenario("older-" + tag, out=out, rm=rm, pkg=pkg, prior="older"))
             S.append(Scenario("garbage-" + tag, out=out, rm=rm, pkg=pkg, prior="garbage"))
             S.append(Scenario("shrink-" + tag, out=out, rm=rm, pkg=pkg, prior="bigger"))
+            S.append(Scenario("relayout-" + tag, out=out, rm=rm, pkg=pkg, prior="noop"))
             S.append(Scenario("two-" + tag, out=out, rm=rm, pkg=pkg, args=("Store", "Lister:FakeLister"),
                               flags=("-stub", "-with-resets")))
             # failures at each stage
@@ -128,6 +131,9 @@ def scenarios():
                           fault="parent-is-file"))
         S.append(Scenario("syntaxerr" + ("-rm" if rm else ""), out="store_moq.go", rm=rm, prior="own",
                           fault="syntax-error", expect_gen_err=True))
+        # the parent of -out exists already, with a mode of its own
+        S.append(Scenario("privdir" + ("-rm" if rm else ""), out="priv/store_moq.go", rm=rm, pkg="priv",
+                          fault="parent-private"))
         if not rm:
             # another package that happens to have the source package's name (and its own Item)
             # (without -skip-ensure the self-check line is the known finding explicit_same_pkg, D15)
@@ -180,6 +186,9 @@ def run_one(tools, base, sc, ref_cache):
             prior_content = so
             with open(os.path.join(pkgdir, "store.go"), "w") as f:
                 f.write(SRC)
+        elif sc.prior == "noop":
+            rc, so, se = moq(["-fmt", "noop"] + base_flags + ["."] + ["Store"])
+            prior_content = so
         elif sc.prior == "bigger":
             rc, so, se = moq(base_flags + ["."] + ["Store", "Lister"])
             prior_content = so
@@ -210,6 +219,9 @@ def run_one(tools, base, sc, ref_cache):
             f.write('package store\n\nimport "example.com/dep"\n\nvar _ dep.T\n')
         run_env = C.goenv()
         run_env.pop("GOFLAGS", None)
+    if sc.fault == "parent-private":
+        os.makedirs(os.path.join(pkgdir, "priv"))
+        os.chmod(os.path.join(pkgdir, "priv"), 0o700)
     if sc.fault == "same-name-dest":
         os.makedirs(os.path.join(root, "alt", "store"))
         with open(os.path.join(root, "alt", "store", "decoy.go"), "w") as f:
@@ -275,7 +287,7 @@ def coq_case(o):
         entries.append((comps, "NDir"))
     if o["fault"] == "parent-is-file":
         entries.append((comps[:1], '(NFile "blocker")'))
-    if o["fault"] == "same-name-dest":
+    if o["fault"] in ("same-name-dest", "parent-private"):
         for i in range(1, len(comps)):
             entries.append((comps[:i], "NDir"))
     fs_items = ["(%s, %s)" % (C.coq_list([C.coq_str(c) for c in p]), n) for p, n in entries]
@@ -340,7 +352,7 @@ def observed_summary(o):
         if ch is not None:
             state = "dir" if ch[1] == "dir" else "absent"
         else:
-            existed = bool(o["prior"]) or o["fault"] in ("out-is-dir", "same-name-dest")
+            existed = bool(o["prior"]) or o["fault"] in ("out-is-dir", "same-name-dest", "parent-private")
             if o["fault"] == "parent-is-file":
                 state = "file:blocker"
             else:
